@@ -60,9 +60,9 @@ def py_fname(k):
 
 
 MAIN_KEYS = {
-    'str': ['a', 'b', 'k1', 'x_y', 'K', 'Q 7', 'z.z', 'p-q', '2024-01-15', 'L' * 245 + 'a', 'L' * 245 + 'b'],   # two long keys with a long common prefix (still below NAME_MAX)
+    'str': ['a', 'b', 'k1', 'x_y', 'K', 'Q 7', 'z.z', 'p-q', '2024-01-15', 'TASK_1', 'K_K_a', 'L' * 245 + 'a', 'L' * 245 + 'b'],   # two long keys with a long common prefix (still below NAME_MAX); two keys that contain the entry prefix 'K_' themselves
     'int': [7, 12, -3, 0],
-    'ident': ['a', 'b', 'k1', 'x_y', 'K', 'Q7'],
+    'ident': ['a', 'b', 'k1', 'x_y', 'K', 'Q7', 'TASK_1', 'K_K_a'],
     'tuple': [(1, 2), ('a', 3), (5,), (), ('x', 'y')],
     'bytes': [pickle.dumps(x) for x in [(1,), 'a', (2, 'b')]],
 }
@@ -171,7 +171,7 @@ def cv_table(vals, codec, opts):
 
 # ------------------------------------------------------------------ generation
 OPS = ['setitem'] * 6 + ['getitem'] * 3 + ['delitem'] * 2 + ['contains', 'len', 'keys', 'values', 'items', 'get', 'get', 'pop', 'pop', 'pop',
-       'popitem', 'popkeys', 'popkeys', 'setdefault', 'setdefault', 'update', 'update', 'clear', 'copy', 'eq', 'eq', 'iter', 'eqd']
+       'popitem', 'popkeys', 'popkeys', 'setdefault', 'setdefault', 'update', 'update', 'clear', 'copy', 'eq', 'eq', 'iter', 'eqd', 'copyonto']
 
 
 def gen(tier, idx):
@@ -199,7 +199,7 @@ def gen(tier, idx):
         h = r.randrange(nh)
         if op == 'setitem': ops.append(['setitem', h, K(), V()])
         elif op in ('getitem', 'delitem', 'contains'): ops.append([op, h, K()])
-        elif op in ('len', 'keys', 'values', 'items', 'clear', 'popitem', 'iter', 'eqd'): ops.append([op, h])
+        elif op in ('len', 'keys', 'values', 'items', 'clear', 'popitem', 'iter', 'eqd', 'copyonto'): ops.append([op, h])
         elif op == 'get': ops.append(['get', h, K(), r.choice([None, r.choice(good)])])
         elif op == 'pop': ops.append(['pop', h, K()] + ([r.choice(good)] if r.random() < 0.5 else []))
         elif op == 'popkeys':
@@ -290,6 +290,7 @@ def run_trace(cfg, ops):
         names = ['a']
         recs = []
         tags = collections.Counter()
+        nscr = [0]
 
         def contents(i):
             a = arch[i]
@@ -376,6 +377,25 @@ def run_trace(cfg, ops):
                             v_ += [tb(arch[hi] == d_sw), tb(d_sw == arch[hi])]
                         else: v_ += [False, False]
                     out = dict(o='eqd', v=v_)
+                elif kind == 'copyonto':
+                    # copy(name) onto a name that already holds an archive with OTHER contents (monitor only, on a scratch target):
+                    # the result is an archive equal to the source - or the call refuses and touches nothing
+                    line = None
+                    if cfg['kind'] not in ('file', 'dir', 'sql') or hand[hi] is not arch[hi]: continue
+                    nscr[0] += 1
+                    tname = copy_name(cfg, tmp, 50 + nscr[0])
+                    src = canon_items(dict(arch[hi].items()))
+                    extra_k = [k for k in key_pool(rng('copyonto', i), cfg['kind'], cfg['codec'], 'main') if kcanon(k) not in dict(src)]
+                    if not extra_k: continue
+                    T = arch[hi].copy(tname); T.clear(); T[extra_k[0]] = 1
+                    before = canon_items(dict(T.items()))
+                    try:
+                        R = arch[hi].copy(tname)
+                        got = canon_items(dict(R.items()))
+                        out = dict(o='copyonto', ok=(got == src), how='returned', got=got, src=src)
+                    except Exception as e:
+                        after = canon_items(dict(T.items()))         # (T is an uncached handle on the target: every read goes to the store)
+                        out = dict(o='copyonto', ok=(after == before and canon_items(dict(arch[hi].items())) == src), how='raised:' + type(e).__name__, got=after, src=before)
                 elif kind == 'dump':
                     if hand[hi] is arch[hi]: continue
                     H.dump(); out = dict(o='unit')
@@ -442,6 +462,10 @@ def monitor(tr):
                 return [dict(prop='C03', i=rec['i'], sig=dict(backend=cfg['kind'], codec=cfg['codec'], cause='none', what='eq', op='eq'),
                              msg='%s archive: == / != against a dict_archive with the same contents and one with an extra key gave %r '
                                  '(a==same, same==a, a==diff, diff==a, a!=same, diff!=a, then == both ways against same-size archives whose one differing key holds None / 0)' % (cfg['kind'], out['v']))]
+            if out.get('o') == 'copyonto' and not out['ok']:
+                return [dict(prop='C03', i=rec['i'], sig=dict(backend=cfg['kind'], codec=cfg['codec'], cause='none', what='copy-onto-existing', op='copy'),
+                             msg='%s archive: copy(name) onto a name that already holds an archive %s; the target then holds %r, expected %r (the source when it returns, the untouched target when it refuses)' % (
+                                 cfg['kind'], out['how'], out['got'], out['src']))]
             continue
         op, h = line['op'], line['h']
         d = D[h]
